@@ -123,14 +123,15 @@ fn main() {
                 std::thread::sleep(std::time::Duration::from_secs(2));
                 let (viol, since) = report::early_state();
                 let unlisted: Vec<report::Violation> = viol.into_iter().filter(|v| !known_sigs.contains(&v.signature)).collect();
-                if !unlisted.is_empty() && since > grace {
+                let harness_failed = report::HARNESS_FAILED.load(std::sync::atomic::Ordering::SeqCst);
+                if !unlisted.is_empty() && (since > grace || harness_failed) {
                     let mut st = Stats::new();
                     st.evals = 1;
                     for v in unlisted {
                         st.viol_counts.insert(v.signature.clone(), 1);
                         st.violations.push(v);
                     }
-                    let spec = report::Spec { rule: format!("STOPPED EARLY: a violation had been observed and the remaining workload did not finish within {} s of it (a broken engine can make later cases arbitrarily slow); counts below cover only the recorded violations", grace), assumptions: vec![], floors: vec![] };
+                    let spec = report::Spec { rule: format!("STOPPED EARLY: a violation had been observed and the remaining workload {} (a broken engine can make later cases arbitrarily slow, or break what the harness expects of its own operands); counts below cover only the recorded violations", if harness_failed { "ended with a panic of the harness itself".to_string() } else { format!("did not finish within {} s of it", grace) }), assumptions: vec![], floors: vec![] };
                     let code = report::finish(&ctx_w, st, spec, &[]);
                     std::process::exit(code);
                 }
